@@ -21,7 +21,7 @@ open Rf24 Nrf.Net
     **Proved**: `c15contracts` (`NrfProofs/C15Discharge.lean`).  The last two clauses of `TxS`
     (FIFO depth, pipe tags) were added when the contracts were discharged: without them both
     contracts are false on (unreachable) model states — `tools/c15_contract_counterexamples.lean`. -/
-structure L3Contracts : Prop where
+structure C15Contracts : Prop where
   send_ok : ∀ (s : DrvState) (buf : Bytes), s.Wf → s.cfg.config &&& 3 = 2 → s.cfg.feature &&& 2 = 0 →
     s.d.dynPl &&& 1 ≠ 0 → 1 ≤ buf.length → buf.length ≤ 32 → TxS s →
     ∃ r s', exec (send buf false false 0 true) s = (.ok r, s') ∧ TxS s' ∧
